@@ -69,6 +69,28 @@ def session(rng, tier):
     return gen_net.session_mesh(rng, rng.randint(1, 4), rng.randint(3, 9))
 
 
+def slow_routed_session(rng):
+    """a routed write of an acknowledged type (65..191) whose transmission is SLOW relative to route_timeout: a chain
+    0 - 0o1 - 0o11 (- 0o111), the writer's route_timeout set to 0..5 ms and/or its first hop delayed by lost attempts,
+    single frames and fragment trains.  Every exit of `_write` — including 'the time is already up' — must leave the
+    node listening (seeded change C07-s21 returned before listen = True)."""
+    chain = [0, 0o1, 0o11, 0o111][: rng.choice([3, 4])]
+    ops = [f"new n{i} network {i} {a}" for i, a in enumerate(chain)]
+    w = rng.choice([0, len(chain) - 1])
+    far = [i for i in range(len(chain)) if abs(i - w) >= 2]
+    ops.append(f"n{w} set route_timeout {rng.choice([0, 0, 1, 2, 5, 75])}")
+    if rng.random() < 0.5:
+        ops.append(f"n{w} set tx_timeout {rng.choice([5, 25, 60])}")
+    for _ in range(rng.randint(1, 3)):
+        if rng.random() < 0.7:
+            ops.append("env faults " + "L" * rng.randint(1, 14) + rng.choice(["", "D", "DL", "DLLD"]))
+        ops.append(f"n{w} write {chain[rng.choice(far)]} {rng.choice([65, 70, 127, 191])} "
+                   f"{rbytes(rng, rng.choice([1, 24, 25, 60, 120, 144]))} 56")
+        if rng.random() < 0.4:
+            ops.append(f"n{rng.randrange(len(chain))} update")
+    return f"net {len(chain)} 1 " + " ; ".join(ops)
+
+
 class C07(PropCheck):
     prop = "C07"
     rule = ("sessions of network / mesh API calls on real node objects over simulated radios (trees of routing-only and full "
@@ -83,7 +105,8 @@ class C07(PropCheck):
 
     def cases(self, res, tier, rng):
         n = 150 if tier == "quick" else 2500
-        return [(session(rng, tier), "net-api-random") for _ in range(n)]
+        return ([(session(rng, tier), "net-api-random") for _ in range(n)]
+                + [(slow_routed_session(rng), "slow-routed-write") for _ in range(n // 4)])
 
     def nontrivial(self, line, io):
         return "x1:1" in io or "x2:1" in io or "x6:" in io or "x1:0" in io
